@@ -37,6 +37,13 @@ Theorem recv_refines_spec : forall ops, recv_trace recv_init ops = spec_trace rs
 Proof. exact recv_refines. Qed.
 Print Assumptions recv_refines_spec.
 
+(* ... and over the WHOLE history (resets accepted or not, frames after a reset included) the delivered
+   bytes, the FinalSizeError verdicts, highest_offset and starting_offset agree with the map; only the
+   end marker / is_finished are left unspecified once a reset has been accepted. *)
+Theorem recv_refines_bytes_spec : forall ops, recv_wtrace recv_init ops = spec_wtrace rspec_init ops.
+Proof. exact recv_refines_bytes. Qed.
+Print Assumptions recv_refines_bytes_spec.
+
 (* Send half.  [reach st g]: st is reachable from a fresh writable sender by a legitimate history
    (proofs/StreamSendP.v: no write after FIN/reset, no get_frame after reset, and every delivery
    outcome refers to an emitted frame that has had no outcome yet -- the premise provided by C08);
